@@ -255,6 +255,44 @@ def r3_collect(repo, report):
         report.ob("C20.R3", f"{cname} tallies are collected", covered and len(reads) == len(attrs), facts={"tallies": attrs, "isinstance_handled": covered, "read_in_collector": reads},
                   expected="an isinstance branch of _collect_modifier reads every tally of the class", loc=repo.loc(fn),
                   why="" if covered else f"{cname} keeps {attrs} but _collect_modifier has no branch for it")
+    # accumulation: a branch that can be reached by more than one modifier of the same pipeline (and mate) must add to the
+    # tally, not overwrite it.  How many modifiers can reach a branch is read off the builder model: slots of the
+    # branch's classes in different builder blocks are switched independently and can be present together.
+    import re as _re
+
+    from . import builder_rules
+
+    blocks_of = {}
+    for paired in (False, True):
+        mdl = builder_rules.model(repo, paired)
+        for bi, ri, pos, val, sl in mdl.slots("modifiers"):
+            for cn_ in set(_re.findall(r"\b([A-Z][A-Za-z]+)\(", sl.key)):
+                blocks_of.setdefault(cn_, set()).add((paired, bi))
+    bad_acc = []
+    n_br = 0
+    for br in ast.walk(fn):
+        if not (isinstance(br, ast.If) and isinstance(br.test, ast.Call) and chain(br.test.func) == "isinstance" and len(br.test.args) == 2):
+            continue
+        t = br.test.args[1]
+        classes_ = [chain(e) for e in (t.elts if isinstance(t, ast.Tuple) else [t]) if chain(e)]
+        feeders = set()
+        for cn_ in classes_:
+            feeders |= {(p_, b_, cn_) for (p_, b_) in blocks_of.get(cn_, set())}
+        per_mode = {}
+        for p_, b_, cn_ in feeders:
+            per_mode.setdefault(p_, set()).add(b_)
+        several = any(len(v) > 1 for v in per_mode.values())
+        if not several:
+            continue
+        n_br += 1
+        for st in br.body:
+            if isinstance(st, ast.Assign) and isinstance(st.targets[0], (ast.Subscript, ast.Attribute)) and (chain(st.targets[0]) or chain(getattr(st.targets[0], "value", None)) or "").startswith("self."):
+                tgt = src(st.targets[0])
+                if tgt not in src(st.value):
+                    bad_acc.append(f"{tgt} = {src(st.value)[:50]} (fed by {sorted(classes_)})")
+    report.ob("C20.R3", "tallies fed by several modifiers are accumulated", not bad_acc and n_br >= 1, facts={"branches_with_several_feeders": n_br, "problems": bad_acc},
+              expected="self.quality_trimmed_bp[i] = add_if_not_none(self.quality_trimmed_bp[i], ...) (both -q and --nextseq-trim trimmers can be present)", loc=repo.loc(fn),
+              why=("overwritten instead of added: " + bad_acc[0]) if bad_acc else "")
     # slot routing: (0, m._modifier1), (1, m._modifier2); (0, adapter_cutter1), (1, adapter_cutter2); PairedAdapterCutter i -> adapter_statistics[i]
     lists = [n for n in ast.walk(fn) if isinstance(n, ast.Assign) and isinstance(n.targets[0], ast.Name) and isinstance(n.value, ast.List) and n.value.elts
              and all(isinstance(e, ast.Tuple) and len(e.elts) == 2 and isinstance(e.elts[0], ast.Constant) and isinstance(e.elts[0].value, int) for e in n.value.elts)]
